@@ -3067,7 +3067,7 @@ void SGXMLScanner::scanReset(const InputSource& src)
     fSchemaInfoList->removeAll ();
 
     // fModel may need updating, as fGrammarResolver could have cleaned it
-    if(fModel && getPSVIHandler())
+    if(getPSVIHandler())
         fModel = fGrammarResolver->getXSModel();
 
     // Create dummy schema grammar
